@@ -29,7 +29,8 @@ C01_FilledOnce(sd, n) ==
 
 ----------------------------------------------------------------------------
 C01_KA == SKey("a")  C01_KB == SKey("b")  C01_KU == SKey("_u")
-C01_Atoms == {Atom("i", "1"), Atom("s", "x"), Atom("f", "2.5"), Atom("b", "T"), Atom("n", ""), Atom("i", "0"), Atom("s", "")}
+C01_Atoms == {Atom("i", "1"), Atom("s", "x"), Atom("f", "2.5"), Atom("b", "T"), Atom("n", ""), Atom("i", "0"), Atom("s", ""),
+              Atom("s", "8080"), Atom("s", "808"), Atom("s", "true"), Atom("s", "null")}     \* strings that look like other types
 C01_Md(sd) == [sd EXCEPT !.form = "md", !.md = {<<"m", Atom("i", "1")>>}]
 C01_MdF(sd) == [sd EXCEPT !.form = "md", !.md = {<<"m", Atom("i", "1")>>}, !.pr = 1, !.del = "T"]   \* several flags at once
 C01_Tags == {"none", "force", "weak", "del", "merge", "new", "unsafe"}
